@@ -684,10 +684,11 @@ func GenStakingScenario(t *rapid.T, st *Stats) (*Scenario, stakeInfo) {
 }
 
 type issuanceInfo struct {
-	DevPayouts int  `json:"dev_payouts"`
-	Zeroed     int  `json:"zeroed_balances"`
-	Mint       bool `json:"mint"`
-	MintBurn   bool `json:"mint_burn"`
+	DevPayouts     int  `json:"dev_payouts"`
+	Zeroed         int  `json:"zeroed_balances"`
+	Mint           bool `json:"mint"`
+	MintBurn       bool `json:"mint_burn"`
+	BurnOnSnapshot bool `json:"mint_burn_on_a_snapshot_height,omitempty"`
 }
 
 // GenIssuanceScenario: timelines with every alignment of the one-time
@@ -710,6 +711,13 @@ func GenIssuanceScenario(t *rapid.T, st *Stats) (*Scenario, issuanceInfo) {
 	era.OneWaySmall = era.V202
 	era.V204 = era.V202 + uint32(rapid.IntRange(1, 30).Draw(t, "v204off"))
 	era.V204Burn = era.V204 + uint32(rapid.IntRange(1, 30).Draw(t, "burnoff"))
+	aligned := rapid.IntRange(0, 3).Draw(t, "burnAligned") == 0
+	if aligned {
+		// the mint burn on a snapshot height, the minted supply already present at the snapshot before:
+		// the burn, the snapshot and the holder payout of that block must happen in the specified order
+		era.V204Burn = 144 * (era.V204/144 + 2)
+		info.BurnOnSnapshot = true
+	}
 	if Open("C15/zeroing-collision") {
 		// keep the developer-reward activation clear of staking batches (none exist yet in these chains) and of 144-multiples
 		if era.V20Dev%144 == 0 {
@@ -727,6 +735,9 @@ func GenIssuanceScenario(t *rapid.T, st *Stats) (*Scenario, issuanceInfo) {
 	special := []string{GlobalBurnAddress, GlobalMintAddress}
 	interesting := map[uint32]bool{start + 1: true, start + 2: true, start + 3: true, era.V20Dev - 1: true, era.V20Dev: true, era.V202 - 2: true, era.V202 - 1: true, era.V202: true,
 		era.V204 - 1: true, era.V204: true, era.V204 + 1: true, era.V204Burn - 1: true, era.V204Burn: true, era.V204Burn + 1: true, first: true, first + 144: true}
+	for hh := first; hh <= end; hh += 144 {
+		interesting[hh] = true // snapshot heights are graded
+	}
 	for w.H() <= end {
 		h := w.H()
 		if !interesting[h] && rapid.IntRange(0, 30).Draw(t, "extra") != 0 {
